@@ -28,4 +28,9 @@ BUILT = {
   level='exploration',
   text='All 1778 spellings of the 30 specifier multisets (with qualifiers/storage classes at every position) are enumerated exhaustively; random declarator nests and random struct/union definitions with bit-fields, zero-width/unnamed fields, packed/aligned/_Alignas, anonymous members and nesting are compared member by member against the two psABI reference compilers.',
   note='trusts gcc/clang psABI layout; packed aggregates containing bit-fields or _Alignas members are excluded by construction while D12b/D12c are recorded findings (counted in evidence)'),
+ 'C04': dict(
+  technique='property-based differential testing: Hypothesis-generated aggregate types x lvalue-path operation sequences with full member-wise dumps and canaries after every step; VLA/alloca histories with in-program overlap/alignment invariants; gcc+clang consensus',
+  level='exploration',
+  text='Random aggregate types (bit-fields of every base type/width, nested/anonymous members, unions, arrays) in five storage kinds are driven by generated sequences of stores, op=, ++/--, copies and whole/sub-aggregate assignments through all lvalue spellings; every named leaf and the surrounding canaries are dumped after every step and must equal both references. VLA/alloca histories (incl. run-time row sizes and alloca under pending temporaries) check disjointness, content and alignment of all live blocks.',
+  note='trusts gcc/clang; objects are memset first so no indeterminate byte is printed; packed+bit-field/_Alignas (D12b/D12c) and _Alignas(N>16) automatic objects (D59) excluded by construction and counted'),
 }
